@@ -132,7 +132,7 @@ func c03PatternOf(c *core.Ctx, idx int) (pattern string, enumerated bool) {
 		n -= b.count
 	}
 	// Sampled longer patterns: realistic fragments glued with mask operators.
-	frags := []string{"example", ".com", "/ads", "banner", "?q=", "&u=", "a", "B", ".", "/", "^", "*", "|", "+", "(", ")", "[", "]", "{1}", "\\", "$", "-", "%20", ":", "_", "js", "=1", "||", "://", "http"}
+	frags := []string{"example", ".com", "/ads", "banner", "?q=", "&u=", "a", "B", ".", "/", "^", "*", "|", "+", "(", ")", "[", "]", "{1}", "\\", "$", "-", "%20", ":", "_", "js", "=1", "||", "://", "http", " ", "buy ", " x"}
 	l := 2 + c.Rng.Intn(6)
 	var sb strings.Builder
 	switch c.Rng.Intn(4) {
@@ -423,6 +423,15 @@ func c03CheckOne(c *core.Ctx, idx int, pattern string, enumerated bool) {
 		if alone {
 			c.Violation("pattern-differs-from-the-text", nil, c03Witness{Rule: text, Pattern: pattern},
 				"rule %q (no modifiers) has the pattern %q, expected %q", text, rules.VerifPattern(r), wantPattern)
+
+			return
+		}
+		if !strings.ContainsAny(pattern, "$\\,") && !strings.HasPrefix(pattern, "@@") {
+			// Nothing in such a text can be taken for a delimiter, an escape
+			// or the exception marker: every character before the modifiers
+			// is the pattern (a blank is a literal wherever it stands).
+			c.Violation("pattern-differs-from-the-text", nil, c03Witness{Rule: text, Pattern: pattern},
+				"rule %q has the pattern %q, expected %q", text, rules.VerifPattern(r), wantPattern)
 
 			return
 		}
